@@ -45,6 +45,18 @@ Spec == Init /\ [][Next]_<<kind, msg>>
 ReqRoundTrip == kind = "request" =>
     LET r == msg[1]  p == Parse(ReqWire(r, msg[2])) IN
     p.kind = "request" /\ p.method = r.method /\ p.path = r.path /\ p.params = r.params /\ p.headers = r.headers /\ p.body = r.body
+\* Inflation: making one part longer with a filler that contains no delimiter ('x') makes exactly that part of the parse
+\* longer.  TLC checks it for fillers of 1..3 bytes on every scenario; the law is about positions of delimiters only, which is
+\* what entitles the harness to inflate the same scenarios beyond 64 KiB (where the byte strings are no longer handed to TLC).
+Filler(n) == [i \in 1..n |-> 120]
+Inflate(r, f, n) ==
+    CASE f = "header" -> IF r.headers = <<>> THEN r ELSE [r EXCEPT !.headers[Len(r.headers)].v = @ \o Filler(n)]
+      [] f = "param"  -> IF r.params = <<>> THEN r ELSE [r EXCEPT !.params[1].v = @ \o Filler(n)]
+      [] f = "path"   -> [r EXCEPT !.path = @ \o Filler(n)]
+      [] f = "body"   -> [r EXCEPT !.body = @ \o Filler(n) \o CRLF \o CRLF \o <<109>>]
+ReqRoundTrips(r, plus) == LET p == Parse(ReqWire(r, plus)) IN
+    p.kind = "request" /\ p.method = r.method /\ p.path = r.path /\ p.params = r.params /\ p.headers = r.headers /\ p.body = r.body
+InflationLaw == kind = "request" => \A f \in {"header", "param", "path", "body"}, n \in 1..3 : ReqRoundTrips(Inflate(msg[1], f, n), msg[2])
 RespRoundTrip == kind = "response" =>
     LET r == msg[1]  p == Parse(RespWire(r)) IN
     p.kind = "response" /\ p.status = Digits(r.status) /\ p.reason = r.reason /\ p.headers = r.headers /\ p.body = r.body
